@@ -48,6 +48,9 @@ ISP = "tangelo/toolboxes/molecular_computation/integral_solver_pyscf.py"
 
 FIRE = [
     # ---- C11
+    ("trim-keeps-old-index-set", "C11", [(CIRC, "        self._qubit_indices = set(range(len(qubits_in_use)))\n", "")], "K2.class-invariant"),
+    ("add-gate-forgets-arity-count", "C11", [(CIRC, "        self._n_qubit_gate_counts[n_qubit] = self._n_qubit_gate_counts.get(n_qubit, 0) + 1", "        self._n_qubit_gate_counts.setdefault(n_qubit, 1)")], "K2.class-invariant"),
+    ("inverse-loses-fixed-width-check", "C11", [(CIRC, "        return Circuit(gates, n_qubits=self._qubits_simulated)\n\n    def serialize", "        return Circuit(gates, n_qubits=len(gates))\n\n    def serialize")], "K2.class-invariant"),
     ("add-mutates-left-operand", "C11", [(CIRC, "        return Circuit(self._gates + other._gates, n_qubits=n_qubits)",
                                           "        self._gates.extend(other._gates)\n        return Circuit(self._gates, n_qubits=n_qubits)")], "K1.readonly"),
     ("gate-duplicate-check-dropped", "C11", [(GATE, "        if len(all_involved_qubits) != len(set(all_involved_qubits)):\n            raise ValueError(f\"There are duplicate qubits in the target/control qubits\")\n", "")],
@@ -263,6 +266,7 @@ SILENT = [
     ("qft-phase-spelling", "C20", [(AU, "parameter=prefac*np.pi/2**(n-i))]", "parameter=prefac*2*np.pi/2**(n-i+1))]")]),
     ("qpe-phase-spelling", "C20", [(QPEF, "        return sum([0.5**(i+1) for i, b in enumerate(bitstring) if b == \"1\"])", "        return sum(int(b) / 2**(i+1) for i, b in enumerate(bitstring))")]),
     ("rdm-mirrored-element-conjugated", "C13", [(VQE, '        for key in self.molecule.fermionic_hamiltonian.terms:\n            # Ignore constant / empty term\n            if not key:\n                continue\n', '        filled_terms = set()\n        for key in self.molecule.fermionic_hamiltonian.terms:\n            # Ignore constant / empty term\n            if not key or key in filled_terms:\n                continue\n', (0, 2)), (VQE, '            elif length == 4:\n                rdm2_spin[iele, lele, jele, kele] += opt_energy2\n\n        # save rdm frequency dictionary\n', '            elif length == 4:\n                rdm2_spin[iele, lele, jele, kele] += opt_energy2\n\n            conj_key = tuple((index, 1 - action) for index, action in reversed(key))\n            if conj_key != key:\n                filled_terms.add(conj_key)\n                if length == 2:\n                    rdm1_spin[jele, iele] += np.conj(opt_energy2)\n                elif length == 4:\n                    rdm2_spin[lele, iele, kele, jele] += np.conj(opt_energy2)\n\n        # save rdm frequency dictionary\n')]),
+    ("reindex-fixed-width-spelling", "C11", [(CIRC, "        if self._qubits_simulated:\n            self._qubits_simulated = self.width\n\n    def get_entangled_indices", "        if self._qubits_simulated is not None and self._qubits_simulated > 0:\n            self._qubits_simulated = max(self._qubit_indices) + 1\n\n    def get_entangled_indices")]),
     ("angle-law-spelling", "C06", [(AU, "    angle = 2.*coef if coef >= 0. else 4*np.pi+2*coef", "    angle = 2.*coef + (0. if coef >= 0. else 4*np.pi)")]),
     ("cirq-branches-reordered", "C01", [(TCIRQ, '        elif gate_name in {"SWAP"}:\n            target_circuit.append(GATE_CIRQ[gate_name](qubit_list[gate.target[0]], qubit_list[gate.target[1]]))\n        elif gate_name in {"CSWAP"}:\n            next_gate = GATE_CIRQ[gate_name].controlled(num_controls)\n            target_circuit.append(next_gate(*control_list, qubit_list[gate.target[0]], qubit_list[gate.target[1]]))\n',
                                          '        elif gate_name in {"CSWAP"}:\n            next_gate = GATE_CIRQ[gate_name].controlled(num_controls)\n            target_circuit.append(next_gate(*control_list, qubit_list[gate.target[0]], qubit_list[gate.target[1]]))\n        elif gate_name in {"SWAP"}:\n            target_circuit.append(GATE_CIRQ[gate_name](qubit_list[gate.target[0]], qubit_list[gate.target[1]]))\n')]),
